@@ -27,6 +27,11 @@ def make(pid, macro, profile, idx, seed, gates=None, heavy=False):
         for b, d in enumerate(profile):
             for s in range(1, d):
                 styles[(b, s)] = ["and_then", "map", "then"][(idx + b + s + r.randrange(3)) % 3]
+    if is_async:
+        # value routing is what is checked here: later async steps are synchronous callbacks under FutureExt::map (cheap form)
+        for b, d in enumerate(profile):
+            for s in range(1, d):
+                styles[(b, s)] = "amap"
     pp = PP(macro, profile, carrier=carrier, can_fail=False, handler=handler, lets=lets, styles=styles, gates=gates)
     if handler:
         pp.handler_pos = [None, 0, 1][idx % 3] if len(profile) > 1 else None
@@ -60,8 +65,8 @@ def programs(tier, seed):
             i += 1
             ps.append(make("p%04d" % i, macro, prof, i, seed))
     if tier == "quick":
-        aprofs = {"join_async": [(1,), (1, 1, 1), (2, 1), (1, 2, 1)], "try_join_async": [(1, 1), (1, 2), (2, 1, 1)],
-                  "join_async_spawn": [(1, 1), (2, 1)], "try_join_async_spawn": [(1, 1)]}
+        aprofs = {"join_async": [(1,), (1, 1, 1), (2, 1), (1, 2, 1)], "try_join_async": [(1, 1), (1, 2), (2, 1, 1), (2, 1, 2)],
+                  "join_async_spawn": [(1, 1), (2, 1), (1, 2, 2)], "try_join_async_spawn": [(1, 1), (2, 1, 2)]}
         gates = None
     else:
         aprofs = {"join_async": profiles(3, 2), "try_join_async": profiles(3, 2),
